@@ -35,6 +35,13 @@ def gen(tier, seed):
         if feat == 0:   # also with the stack feature, where `step out` is available
             for combo in itertools.product(al, repeat=min(depth, 2)):
                 specs.append(("exh-stack:" + p.__name__, 1, src, [], list(combo) + [("registers",), ("exit",)]))
+    # every resuming command issued at EVERY point of each program's run: step into k, then X
+    for p in PROGS:
+        src, feat0 = p(random.Random(7))
+        for feat in sorted({feat0, 1}):
+            for k in range(1, 41 if tier == "quick" else 81):
+                for x in (("step",), ("stepout",), ("continue",), ("stepinto", 1), ("stepinto", 2)):
+                    specs.append(("at-every-pc:" + p.__name__, feat, src, [], [("stepinto", k), ("registers",), x, ("registers",), ("exit",)]))
     n = 1500 if tier == "quick" else 30000
     kinds = ["step", "stepinto", "stepout", "continue", "breakadd", "breakremove", "goto", "reset"]
     for i in range(n):
@@ -57,7 +64,8 @@ def correspondence(ctx, violations, known_hits):
         "EXHAUSTIVE command sequences up to length 2 (thorough: 3) over {step, step out, continue, step into k (k in 0,1,2,3,7,100), "
         "break add a (2 addresses), break remove a, goto a (2 addresses)} followed by `registers; exit`, on 12 programs (loops, nested "
         "and recursive subroutines in both calling conventions, HALT in the middle/at the end, .break directives, tight loops, "
-        "exceptions), with and without the stack feature; plus random longer scripts incl. reset; compared: the paused machine "
+        "exceptions), with and without the stack feature; every resuming command issued after `step into k` for EVERY k up to 40 "
+        "(thorough 80), i.e. at every point of each program's run; plus random longer scripts incl. reset; compared: the paused machine "
         "(registers, PC, CC, memory, output), instructions executed, breakpoints, debugger output", profiles,
         exhaustive=True, exhaustive_over="command sequences up to the stated length over the stated alphabet")
 
